@@ -350,8 +350,8 @@ func (c *c19) witness(j *job, d *difference, refKeep string) map[string]interfac
 	w := map[string]interface{}{
 		"program_sources": j.Src, "root_file": j.Prog.Root().FileName(), "features": j.Prog.FeatureList(),
 		"target": j.Tgt.Name, "gen": j.Tgt.gen(j.Set), "recurse": j.Recurse,
-		"run_a": map[string]interface{}{"cwd": d.FirstRun.Cwd, "args": d.FirstRun.Args},
-		"run_b": map[string]interface{}{"cwd": d.Other.Cwd, "args": d.Other.Args},
+		"run_a":      map[string]interface{}{"cwd": d.FirstRun.Cwd, "args": d.FirstRun.Args},
+		"run_b":      map[string]interface{}{"cwd": d.Other.Cwd, "args": d.Other.Args},
 		"difference": d.Kind, "file": d.Rel,
 	}
 	if d.Detail != nil {
@@ -411,9 +411,9 @@ func (c *c19) runJob(j *job) {
 		run.Add("compilations_rejected_in_reference_location(C11's business)", 1)
 	}
 
-	report := func(kind, sigTail, what string, d *difference) {
+	report := func(kind, sigTail, what string, d *difference, aDir string) {
 		sig := "C19:" + kind + ":" + sigTail
-		run.Violation(sig, what, c.witness(j, d, refKeep))
+		run.Violation(sig, what, c.witness(j, d, aDir))
 	}
 
 	// repetitions in the same location, same arguments
@@ -435,7 +435,7 @@ func (c *c19) runJob(j *job) {
 			if j.Set.Label != "" && !c.plainAlsoDiffers(j) {
 				tail += ":" + j.Set.Label
 			}
-			report("nondeterministic", tail+":"+cls, fmt.Sprintf("repetition %d of the same compilation (same cwd, same arguments) differs from repetition 0: %s %s", k, d.Kind, d.Rel), d)
+			report("nondeterministic", tail+":"+cls, fmt.Sprintf("repetition %d of the same compilation (same cwd, same arguments) differs from repetition 0: %s %s", k, d.Kind, d.Rel), d, refKeep)
 			os.RemoveAll(outA)
 			break
 		}
@@ -444,43 +444,9 @@ func (c *c19) runJob(j *job) {
 
 	// location variations: each varies one aspect against the reference run
 	for _, v := range j.Vars {
-		var o *obs
-		var cleanup []string
-		switch v {
-		case "cwd+absolute-file":
-			// same sources, same absolute output dir; the compiler runs from an unrelated cwd
-			cwd := filepath.Join(j.Dir, "elsewhere", "cwd")
-			os.MkdirAll(cwd, 0o755)
-			o = c.compile(j, cwd, filepath.Join(srcA, rootFile), outA, outA)
-			cleanup = []string{outA}
-		case "source-root":
-			// sources copied below another absolute root at another depth
-			srcB := filepath.Join(j.Dir, "B", "deeper", "and_deeper", "x.y", "sources")
-			c.writeSources(srcB, j.Src)
-			o = c.compile(j, srcB, rootFile, "out", filepath.Join(srcB, "out"))
-			cleanup = []string{filepath.Join(j.Dir, "B")}
-		case "out-absolute-nested":
-			outN := filepath.Join(j.Dir, "outputs", "nested", "a", "b", "c")
-			o = c.compile(j, srcA, rootFile, outN, outN)
-			cleanup = []string{filepath.Join(j.Dir, "outputs")}
-		case "out-relative-nested+relative-file-depth":
-			// cwd two levels above the sources; file and -out are relative paths with directories
-			cwd := filepath.Join(j.Dir)
-			o = c.compile(j, cwd, filepath.Join("A", "src", rootFile), filepath.Join("rel", "o", "u", "t"), filepath.Join(j.Dir, "rel", "o", "u", "t"))
-			cleanup = []string{filepath.Join(j.Dir, "rel")}
-		case "out-pre-existing-identical":
-			first := c.compile(j, srcA, rootFile, "out", outA)
-			run.Eval(1)
-			if first.Exit == -99 {
-				os.RemoveAll(outA)
-				continue
-			}
-			o = c.compile(j, srcA, rootFile, "out", outA) // second run into the tree left by the first
-			cleanup = []string{outA}
-		case "dot-slash-file":
-			// ./file and ./out spelled with a leading dot and a trailing slash
-			o = c.compile(j, srcA, "./"+rootFile, "./out/", outA)
-			cleanup = []string{outA}
+		o, cleanup := c.runVariation(j, v, srcA, outA, rootFile)
+		if o == nil {
+			continue
 		}
 		run.Eval(1)
 		run.Add("location_comparisons", 1)
@@ -488,14 +454,88 @@ func (c *c19) runJob(j *job) {
 		if o.Exit == -99 {
 			run.Inconclusive(fmt.Sprintf("watchdog in location %q (program %d, %s)", v, j.P, label))
 		} else if d := compare(ref, o); d != nil {
-			what := fmt.Sprintf("compiling the same program with the same options differs when only %q varies: %s %s", v, d.Kind, d.Rel)
-			report("location-dependent", j.Tgt.Name+":"+v, what, d)
+			// same location once more: if two runs in this very location differ
+			// from each other the cause is nondeterminism, not the location
+			keep := filepath.Join(j.Dir, "loc-keep")
+			os.RemoveAll(keep)
+			os.Rename(o.Root, keep)
+			for _, p := range cleanup {
+				os.RemoveAll(p)
+			}
+			var o2 *obs
+			var d2 *difference
+			for again := 0; again < 3 && d2 == nil; again++ {
+				if again > 0 {
+					for _, p := range cleanup {
+						os.RemoveAll(p)
+					}
+				}
+				o2, cleanup = c.runVariation(j, v, srcA, outA, rootFile)
+				if o2 == nil || o2.Exit == -99 {
+					break
+				}
+				d2 = compare(o, o2)
+			}
+			if o2 != nil && o2.Exit != -99 {
+				if d2 != nil {
+					cls := "acceptance"
+					if d2.Rel != "" {
+						cls = fileClass(j.Tgt.Name, d2.Rel)
+					}
+					tail := j.Tgt.Name
+					if j.Set.Label != "" && !c.plainAlsoDiffers(j) {
+						tail += ":" + j.Set.Label
+					}
+					report("nondeterministic", tail+":"+cls, fmt.Sprintf("two compilations in the same location (%q, same arguments) differ: %s %s", v, d2.Kind, d2.Rel), d2, keep)
+				} else {
+					what := fmt.Sprintf("compiling the same program with the same options differs when only %q varies (stable within each location): %s %s", v, d.Kind, d.Rel)
+					d.Other = o2
+					report("location-dependent", j.Tgt.Name+":"+v, what, d, refKeep)
+				}
+			}
+			os.RemoveAll(keep)
 		}
 		for _, p := range cleanup {
 			os.RemoveAll(p)
 		}
 	}
 	os.RemoveAll(j.Dir)
+}
+
+// runVariation compiles j once in location variation v; returns the
+// observation and the paths to remove afterwards (nil observation = skipped).
+func (c *c19) runVariation(j *job, v, srcA, outA, rootFile string) (*obs, []string) {
+	switch v {
+	case "cwd+absolute-file":
+		// same sources, same absolute output dir; the compiler runs from an unrelated cwd
+		cwd := filepath.Join(j.Dir, "elsewhere", "cwd")
+		os.MkdirAll(cwd, 0o755)
+		return c.compile(j, cwd, filepath.Join(srcA, rootFile), outA, outA), []string{outA}
+	case "source-root":
+		// sources copied below another absolute root at another depth
+		srcB := filepath.Join(j.Dir, "B", "deeper", "and_deeper", "x.y", "sources")
+		c.writeSources(srcB, j.Src)
+		return c.compile(j, srcB, rootFile, "out", filepath.Join(srcB, "out")), []string{filepath.Join(j.Dir, "B")}
+	case "out-absolute-nested":
+		outN := filepath.Join(j.Dir, "outputs", "nested", "a", "b", "c")
+		return c.compile(j, srcA, rootFile, outN, outN), []string{filepath.Join(j.Dir, "outputs")}
+	case "out-relative-nested+relative-file-depth":
+		// cwd two levels above the sources; file and -out are relative paths with directories
+		return c.compile(j, j.Dir, filepath.Join("A", "src", rootFile), filepath.Join("rel", "o", "u", "t"), filepath.Join(j.Dir, "rel", "o", "u", "t")), []string{filepath.Join(j.Dir, "rel")}
+	case "out-pre-existing-identical":
+		first := c.compile(j, srcA, rootFile, "out", outA)
+		c.run.Eval(1)
+		if first.Exit == -99 {
+			os.RemoveAll(outA)
+			return nil, nil
+		}
+		// second run into the tree left by the first
+		return c.compile(j, srcA, rootFile, "out", outA), []string{outA}
+	case "dot-slash-file":
+		// ./file and ./out spelled with a leading dot and a trailing slash
+		return c.compile(j, srcA, "./"+rootFile, "./out/", outA), []string{outA}
+	}
+	return nil, nil
 }
 
 // plainAlsoDiffers re-runs the plain option set of the same target a few
@@ -572,8 +612,15 @@ func runC19(tier string) int {
 			for si, s := range sets {
 				// -r is the normal way to compile a multi-file program; every third key runs without it
 				recurse := (i+ti+si)%3 != 0
+				kreps, knvars := reps, nvars
+				if run.Thorough() && len(sets) > 1 && si != 0 && si != 1+(i+ti)%(len(sets)-1) {
+					// thorough: the plain set and one rotating option set of every
+					// (program, target) get the full 10 repetitions x 4 locations,
+					// the remaining option sets 3 repetitions x 3 locations (cost)
+					kreps, knvars = 3, 2
+				}
 				var vars []string
-				for k := 0; k < nvars; k++ {
+				for k := 0; k < knvars; k++ {
 					vars = append(vars, allVars[(i*7+ti*3+si+k*2+int(run.Seed))%len(allVars)])
 				}
 				vars = dedupe(vars)
@@ -581,7 +628,7 @@ func runC19(tier string) int {
 				if t.Name == "html" {
 					altSrc = alt
 				}
-				jobs = append(jobs, &job{P: i, Prog: p, Src: src, AltSrc: altSrc, Tgt: t, Set: s, Recurse: recurse, Reps: reps, Vars: vars,
+				jobs = append(jobs, &job{P: i, Prog: p, Src: src, AltSrc: altSrc, Tgt: t, Set: s, Recurse: recurse, Reps: kreps, Vars: vars,
 					Dir: filepath.Join(base, fmt.Sprintf("p%d", i), fmt.Sprintf("j%d_%d", ti, si))})
 			}
 		}
@@ -593,6 +640,9 @@ func runC19(tier string) int {
 	run.Set("keys(program,target,options,-r)", len(jobs))
 	run.Set("repetitions_per_key", reps)
 	run.Set("location_variations_per_key", nvars)
+	if run.Thorough() {
+		run.Set("thorough_cost_rule", "plain + one rotating option set per (program,target): 10 repetitions + 3 location variations; other option sets: 3 repetitions + 2 location variations")
+	}
 	run.Set("location_variation_kinds", allVars)
 
 	ch := make(chan *job)
